@@ -130,6 +130,28 @@ def rule_apply(ctx):
         if fc[1] != ('call', ('name', '_get_func'), (P_('func'), P_('skipna')), ()):
             ctx.violated('R2', fi, T.show(fc[1]), '_get_func must receive the function name and skipna', node=p.node)
             continue
+        # the keyword arguments handed to NumPy are the caller's own plus axis=idx: nothing else is injected (an added dtype= / out= changes NumPy's promotion rules)
+        kwt = dict(fc[3]).get('**')
+        injected = []
+        b = kwt
+        while b is not None and b[0] in ('setitem', 'mut', 'phi'):
+            if b[0] == 'setitem':
+                if b[2] != const('axis'):
+                    injected.append(T.show(b[2]))
+                b = b[1]
+            elif b[0] == 'mut':
+                b = b[1]
+            else:
+                for alt in b[1]:
+                    for x in T.subterms(alt):
+                        if x[0] == 'setitem' and x[2] != const('axis'):
+                            injected.append(T.show(x[2]))
+                b = None
+        if injected:
+            ctx.violated('R2', fi, 'keyword injected into the NumPy call: %s' % ', '.join(sorted(set(injected))), 'apply_along_axis adds %s to the keyword arguments of the NumPy function: '
+                         'the result is no longer NumPy\'s f over .values along that dimension (e.g. dtype= disables the promotion of small integers in cumsum / cumprod / sum)'
+                         % ', '.join(sorted(set(injected))), node=p.node)
+            continue
         if fc[2][:1] != (('attr', OBJ, 'values'),) or T.kw(fc, 'axis') != IDX:
             ctx.violated('R2', fi, T.show(fc)[:160], 'the function must be applied to obj.values along axis=idx, both from the same _deal_with_axis result',
                          node=p.node)
